@@ -23,7 +23,9 @@ AtomKinds == {"sym", "sym2", "kw", "int", "float", "str", "bytes", "none", "true
               "list0", "list1", "list2", "listkw", "listpair", "tuple1", "set1", "dict0", "dict1", "dict2",
               "call", "empty-expr", "star", "dstar", "star-star", "annot",
               "else", "except0", "except1", "except2", "finally", "ellipsis", "colon-kw", "dotsym",
-              "or0", "fstr-stmt", "fstr-star", "dstar0", "star0", "dstar2", "quote0", "unquote1", "dot0", "dotkw"}
+              "or0", "fstr-stmt", "fstr-star", "dstar0", "star0", "dstar2", "quote0", "unquote1", "dot0", "dotkw",
+              \* values that leave their result in a compiler temporary, and constants in binding positions
+              "tryval", "ifstmt", "fnval", "listnone1", "listnone2"}
 \* a nested form: <<"form", head, <<atom kinds>>>>
 Nested == IF AllowNested
           THEN {<<"form", h, as>> : h \in Heads, as \in UNION {[1..k -> {"sym", "int", "list1", "kw", "star", "call"}] : k \in 0..NestedArgs}}
